@@ -139,7 +139,7 @@ PROPS = {
         'obl_filter': C20_BUILDER,
         'trusted_base': COMMON_TB,
         'assumptions': [
-            'span-recording, lexer-position and trace-assembly layers only: parser token->AST spans, compile_* calling set_span with the node being compiled, the propagation of a trace across nested VMs and error formatting are NOT verified; they are linked to the layers only by the side battery (about 640 fault-planted programs x layouts x call shapes; testing, not proof)',
+            'span-recording, lexer-position and trace-assembly layers only: parser token->AST spans, compile_* calling set_span with the node being compiled, the propagation of a trace across nested VMs and error formatting are NOT verified; they are linked to the layers only by the side battery (about 750 fault-planted programs x layouts x call shapes; testing, not proof)',
             'build_stack_trace: requires every chunk source map sorted (established by BytecodeBuilder::finish / BytecodeChunk::new, unit builder); that no other code edits the pub field source_map is unchecked',
             'rule R11: for x in E.iter().rev() rewritten to a descending index loop over the same Vec (trusted: slice::iter().rev() visits the elements in descending index order, each once)',
             'trace unit stand-ins: JsString::to_string yields the uninterpreted text of the string; JsValue, JsObject, CallFrame, TryHandler, Guarded, PendingCompletion, Gc<T>, Guard<T> opaque',
